@@ -380,6 +380,21 @@ LEGAL = {
 }
 
 
+def attribute_statements_order(py):
+    """(FortranProcedure._cleanup, index of the top-level statement that runs the inherited clean-up - which applies the
+    attribute statements -, index of the first top-level statement that takes dummy arguments out of self.variables)"""
+    fp = py.func("FortranProcedure._cleanup")
+    def top_index(pred):
+        return next((i for i, st in enumerate(fp.body) if any(pred(n) for n in ast.walk(st))), None)
+    i_super = top_index(lambda n: isinstance(n, ast.Call) and call_name(n) == "super()._cleanup")
+    i_take = top_index(lambda n: (isinstance(n, ast.Call) and isinstance(n.func, ast.Attribute) and n.func.attr in ("remove", "pop")
+                                  and ast.unparse(n.func.value) == "self.variables")
+                       or (isinstance(n, ast.Assign) and any(ast.unparse(t) == "self.variables" for t in n.targets)))
+    if i_super is None or i_take is None:
+        raise AnalysisError("FortranProcedure._cleanup: inherited clean-up or argument matching not found")
+    return fp, i_super, i_take
+
+
 def r4_container_matrix(ctx, rep):
     py, cs = ctx.py, ctx.cascade
     from ..tables import children_lists
@@ -453,15 +468,7 @@ def r4_container_matrix(ctx, rep):
            py.nloc(arm.test))
     # attribute statements before argument matching (also C04.R3): the inherited clean-up (which applies the attribute
     # statements) runs before the first statement that takes dummy arguments out of self.variables
-    fp = py.func("FortranProcedure._cleanup")
-    def top_index(pred):
-        return next((i for i, st in enumerate(fp.body) if any(pred(n) for n in ast.walk(st))), None)
-    i_super = top_index(lambda n: isinstance(n, ast.Call) and call_name(n) == "super()._cleanup")
-    i_take = top_index(lambda n: (isinstance(n, ast.Call) and isinstance(n.func, ast.Attribute) and n.func.attr in ("remove", "pop")
-                                  and ast.unparse(n.func.value) == "self.variables")
-                       or (isinstance(n, ast.Assign) and any(ast.unparse(t) == "self.variables" for t in n.targets)))
-    if i_super is None or i_take is None:
-        raise AnalysisError("FortranProcedure._cleanup: inherited clean-up or argument matching not found")
+    fp, i_super, i_take = attribute_statements_order(py)
     ok = i_super < i_take
     rep.ob("attribute statements are applied before dummy arguments are matched", ok,
            "process_attribs runs while the dummy arguments are still in self.variables" if ok else
